@@ -53,12 +53,12 @@ Proof.
   rewrite !orb_true_r. reflexivity.
 Qed.
 
-Lemma enabled_day zp E M s e c :
+Lemma enabled_day E M s e c :
   small E M -> R E M s e c -> 0 <= e < two62 ->
-  p_enabled (s_params s) = true -> prov_ok zp (s_params s) c -> dist_ok (s_params s) ->
-  view_of (snd (after_epoch_end zp s true e)) = snd (spec_step {| q_params := s_params s; q_c := c |} (EpochEnd true e)) /\
-  R E M (fst (after_epoch_end zp s true e)) (e + 1) (c + 1) /\
-  s_params (fst (after_epoch_end zp s true e)) = s_params s.
+  p_enabled (s_params s) = true -> prov_ok (s_params s) c -> dist_ok (s_params s) ->
+  view_of (snd (after_epoch_end false s true e)) = snd (spec_step {| q_params := s_params s; q_c := c |} (EpochEnd true e)) /\
+  R E M (fst (after_epoch_end false s true e)) (e + 1) (c + 1) /\
+  s_params (fst (after_epoch_end false s true e)) = s_params s.
 Proof.
   intros [HE [HM HEM]] [R1 [R2 [R3 [R4 [R5 [R6 [R7 [R8 R9]]]]]]]] He Hen Hpo Hd.
   destruct two62_lt as [T1 [T2 T3]].
@@ -73,7 +73,7 @@ Proof.
     rewrite Z.min_l by lia. specialize (Hpo Lt).
     rewrite provision_below by (try rewrite R1; try rewrite R2; auto; lia).
     set (prov := poly_provision p (c / E)) in *.
-    assert (Hprov : 0 < prov) by (destruct zp; pose proof PREC_pos; lia).
+    assert (Hprov : 0 < prov) by exact Hpo.
     assert (0 <? prov = true) as -> by (apply Z.ltb_lt; exact Hprov). cbn [negb].
     assert (Hamt : 0 <= truncate_int prov) by (apply truncate_nonneg; lia).
     (* the roll-over test *)
@@ -101,8 +101,6 @@ Proof.
         repeat split; auto; try lia. intro X. congruence.
     + (* positive provision below one unibi: nothing minted, the roll-over test still runs (and the pinned tree panics) *)
       apply Z.ltb_ge in Pos. assert (Z0 : truncate_int prov = 0) by lia.
-      assert (zp = false) as ->.
-      { destruct zp; [|reflexivity]. pose proof (truncate_ge1 prov Hpo). lia. }
       fold k. rewrite Hroll. cbn [fst snd]. split; [|split; [|reflexivity]].
       * unfold view_of, with_panic, quiet. cbn. rewrite Hsm, Z0, !share_zero, R3, Hnext.
         unfold sched_period. rewrite R1, R2. reflexivity.
@@ -165,11 +163,11 @@ Proof.
   repeat split; auto.
 Qed.
 
-Lemma step_refines zp E M s e c o :
-  small E M -> R E M s e c -> hist_ok zp E M (s_params s) c e [o] ->
-  view_of (snd (step zp s o)) = snd (spec_step {| q_params := s_params s; q_c := c |} o) /\
-  R E M (fst (step zp s o)) (next_e o e) (next_c (s_params s) o c) /\
-  s_params (fst (step zp s o)) = next_params (s_params s) o.
+Lemma step_refines E M s e c o :
+  small E M -> R E M s e c -> hist_ok E M (s_params s) c e [o] ->
+  view_of (snd (step false s o)) = snd (spec_step {| q_params := s_params s; q_c := c |} o) /\
+  R E M (fst (step false s o)) (next_e o e) (next_c (s_params s) o c) /\
+  s_params (fst (step false s o)) = next_params (s_params s) o.
 Proof.
   intros Hs HR Hh. pose proof HR as [R1 [R2 [R3 [R4 [R5 [R6 [R7 [R8 R9]]]]]]]].
   assert (Hq : peek (s_period s) = sched_period (s_params s) c) by (unfold sched_period; rewrite R1, R2; exact R8).
@@ -214,13 +212,13 @@ Lemma spec_run_cons q o r :
   (fst (spec_run (fst (spec_step q o)) r), snd (spec_step q o) :: snd (spec_run (fst (spec_step q o)) r)).
 Proof. cbn [spec_run]. destruct (spec_step q o) as [q1 x]. cbn [fst snd]. destruct (spec_run q1 r). reflexivity. Qed.
 
-Lemma hist_ok_head zp E M p c e o r : hist_ok zp E M p c e (o :: r) -> hist_ok zp E M p c e [o].
+Lemma hist_ok_head E M p c e o r : hist_ok E M p c e (o :: r) -> hist_ok E M p c e [o].
 Proof.
   destruct o as [[|] e'|auth b|auth ed|amt]; cbn [hist_ok]; intro H; try tauto.
 Qed.
 
-Lemma hist_ok_tail zp E M p c e o r :
-  hist_ok zp E M p c e (o :: r) -> hist_ok zp E M (next_params p o) (next_c p o c) (next_e o e) r.
+Lemma hist_ok_tail E M p c e o r :
+  hist_ok E M p c e (o :: r) -> hist_ok E M (next_params p o) (next_c p o c) (next_e o e) r.
 Proof.
   destruct o as [[|] e'|auth b|auth ed|amt]; cbn [hist_ok next_params next_c next_e]; intro H; try tauto.
 Qed.
@@ -235,18 +233,18 @@ Qed.
 
 (** MAIN: from a consistent state, over every admissible history, what the code does is what the
     closed-form schedule prescribes, op by op; and the coupling holds again at the end *)
-Theorem refines_schedule : forall zp E M ops s e c,
-  small E M -> R E M s e c -> hist_ok zp E M (s_params s) c e ops ->
-  map view_of (snd (run zp s ops)) = snd (spec_run {| q_params := s_params s; q_c := c |} ops) /\
-  exists e' c', R E M (fst (run zp s ops)) e' c' /\
+Theorem refines_schedule : forall E M ops s e c,
+  small E M -> R E M s e c -> hist_ok E M (s_params s) c e ops ->
+  map view_of (snd (run false s ops)) = snd (spec_run {| q_params := s_params s; q_c := c |} ops) /\
+  exists e' c', R E M (fst (run false s ops)) e' c' /\
                 fst (spec_run {| q_params := s_params s; q_c := c |} ops) =
-                {| q_params := s_params (fst (run zp s ops)); q_c := c' |}.
+                {| q_params := s_params (fst (run false s ops)); q_c := c' |}.
 Proof.
-  intros zp E M ops. induction ops as [|o r IH]; intros s e c Hs HR Hh.
+  intros E M ops. induction ops as [|o r IH]; intros s e c Hs HR Hh.
   - cbn. split; [reflexivity|]. exists e, c. auto.
   - rewrite run_cons, spec_run_cons. cbn [fst snd map].
-    destruct (step_refines zp E M s e c o Hs HR (hist_ok_head _ _ _ _ _ _ _ _ Hh)) as [V [HR' Hp]].
-    pose proof (hist_ok_tail _ _ _ _ _ _ _ _ Hh) as Ht. rewrite <- Hp in Ht.
+    destruct (step_refines E M s e c o Hs HR (hist_ok_head _ _ _ _ _ _ _ Hh)) as [V [HR' Hp]].
+    pose proof (hist_ok_tail _ _ _ _ _ _ _ Hh) as Ht. rewrite <- Hp in Ht.
     rewrite spec_step_state. cbn [q_params q_c]. rewrite <- Hp.
     destruct (IH _ _ _ Hs HR' Ht) as [Vr Er].
     split; [rewrite V, Vr; reflexivity|exact Er].
@@ -464,9 +462,9 @@ Proof.
   - vm_compute. reflexivity.
 Qed.
 
-(** FINDING: polynomial positive below MaxPeriod, state consistent, proportions valid — but the provision is
-    below one unibi: on a tree where the probe reports the panic ([zp] = true) the epoch hook panics
-    (in BeginBlock: the chain halts) *)
+(** DEFECT (repaired by fix: 2259f46): polynomial positive below MaxPeriod, state consistent, proportions valid — but
+    the provision is below one unibi: on a tree where the probe reports the panic ([zp] = true) the epoch hook panics
+    (in BeginBlock: the chain halts); with the repair ([zp] = false) it does not *)
 Definition tiny_state : st :=
   {| s_params := {| p_enabled := true; p_started := true; p_factors := [400000000000];
                     p_staking := 281250000000000000; p_community := 354825000000000000; p_strategic := 363925000000000000;
@@ -475,13 +473,14 @@ Definition tiny_state : st :=
 
 Lemma sub_unit_provision_panics :
   exists s e, Consistent s e /\ dist_ok (s_params s) /\ poly_pos (s_params s) /\ s_module s = 0 /\
-              o_panic (snd (after_epoch_end true s true e)) = true.
+              o_panic (snd (after_epoch_end true s true e)) = true /\
+              o_panic (snd (after_epoch_end false s true e)) = false.
 Proof.
   exists tiny_state, 1. split; [vm_compute; repeat split; try discriminate; auto|].
   split; [vm_compute; repeat split; discriminate|]. split.
   { intros per Hper. change (p_max (s_params tiny_state)) with 2 in Hper.
     assert (per = 0 \/ per = 1) as [->| ->] by lia; vm_compute; reflexivity. }
-  split; reflexivity.
+  split; [reflexivity|]. split; reflexivity.
 Qed.
 
 (* ---------------------------------------------------------------- the checker's precondition *)
@@ -493,12 +492,12 @@ Proof.
   apply Z.eqb_eq in H0. auto.
 Qed.
 
-Lemma prov_okb_sound zp p c : prov_okb zp p c = true -> prov_ok zp p c.
+Lemma prov_okb_sound p c : prov_okb p c = true -> prov_ok p c.
 Proof.
-  unfold prov_okb, prov_ok. intros H L. apply Z.ltb_lt in L. rewrite L in H. apply Z.leb_le in H. exact H.
+  unfold prov_okb, prov_ok. intros H L. apply Z.ltb_lt in L. rewrite L in H. apply Z.ltb_lt in H. exact H.
 Qed.
 
-Lemma hist_okb_sound zp E M : forall ops p c e, hist_okb zp E M p c e ops = true -> hist_ok zp E M p c e ops.
+Lemma hist_okb_sound E M : forall ops p c e, hist_okb E M p c e ops = true -> hist_ok E M p c e ops.
 Proof.
   induction ops as [|o r IH]; intros p c e H; [exact I|].
   destruct o as [[|] e'|auth b|auth ed|amt]; cbn [hist_okb hist_ok] in *.
@@ -543,7 +542,7 @@ Qed.
     [refines_schedule]; hence the MODEL's trace of that case satisfies the predicate *)
 Lemma pre_sound c :
   pre c = true ->
-  P_trace (start_q c) (combine (map fst (c_tr c)) (snd (run (c_zp c) (c_init c) (map fst (c_tr c))))).
+  P_trace (start_q c) (combine (map fst (c_tr c)) (snd (run false (c_init c) (map fst (c_tr c))))).
 Proof.
   unfold pre, start_q. destruct (first_day (map fst (c_tr c))) as [e|] eqn:Fd; [|discriminate].
   intro H.
@@ -557,9 +556,9 @@ Proof.
     apply andb_true_iff in H2. destruct H2 as [H2 H4]. apply andb_true_iff in H2. destruct H2 as [H2 H5].
     apply Z.ltb_lt in H2. apply Z.leb_le in H5. apply Z.ltb_lt in H4. repeat split; assumption. }
   pose proof (Consistent_R _ _ H H3 H1) as HR.
-  destruct (refines_schedule _ _ _ _ _ _ _ Hs HR H0) as [V _].
+  destruct (refines_schedule _ _ _ _ _ _ Hs HR H0) as [V _].
   unfold P_trace.
-  set (ops := map fst (c_tr c)) in *. set (outs := snd (run (c_zp c) (c_init c) ops)) in *.
+  set (ops := map fst (c_tr c)) in *. set (outs := snd (run false (c_init c) ops)) in *.
   assert (L : length outs = length ops) by apply run_length.
   pose proof (combine_fst ops outs L) as M1.
   pose proof (combine_snd_map view_of ops outs L) as M2.
@@ -591,7 +590,7 @@ Definition ex_ops : list op :=
   map (fun i => EpochEnd true (Z.of_nat i)) (seq 3 31) ++
   [Toggle true false; EpochEnd true 34; Toggle true true; EpochEnd true 35; EpochEnd false 9].
 
-Example ex_hist_ok : hist_ok true 30 96 (s_params genesis_state) 0 1 ex_ops.
+Example ex_hist_ok : hist_ok 30 96 (s_params genesis_state) 0 1 ex_ops.
 Proof. apply hist_okb_sound. vm_compute. reflexivity. Qed.
 
 Example ex_periods :
@@ -613,29 +612,26 @@ Proof. vm_compute. split; [reflexivity|discriminate]. Qed.
 
 (* ---------------------------------------------------------------- statements in terms of [Consistent] *)
 
-Theorem period_tracks_schedule : forall zp ops s e,
+Theorem period_tracks_schedule : forall ops s e,
   let p := s_params s in
   Consistent s e -> s_module s = 0 -> 0 <= peek (s_skipped s) -> small (p_epp p) (p_max p) ->
-  hist_ok zp (p_epp p) (p_max p) p (n_of s e - 1) e ops ->
-  map view_of (snd (run zp s ops)) = snd (spec_run {| q_params := p; q_c := n_of s e - 1 |} ops) /\
-  exists e', Consistent (fst (run zp s ops)) e' /\
+  hist_ok (p_epp p) (p_max p) p (n_of s e - 1) e ops ->
+  map view_of (snd (run false s ops)) = snd (spec_run {| q_params := p; q_c := n_of s e - 1 |} ops) /\
+  exists e', Consistent (fst (run false s ops)) e' /\
              fst (spec_run {| q_params := p; q_c := n_of s e - 1 |} ops) =
-             {| q_params := s_params (fst (run zp s ops)); q_c := n_of (fst (run zp s ops)) e' - 1 |}.
+             {| q_params := s_params (fst (run false s ops)); q_c := n_of (fst (run false s ops)) e' - 1 |}.
 Proof.
-  intros zp ops s e p Hc Hm Hk Hs Hh.
+  intros ops s e p Hc Hm Hk Hs Hh.
   pose proof (Consistent_R s e Hc Hm Hk) as HR.
-  destruct (refines_schedule zp _ _ ops s e _ Hs HR Hh) as [V [e' [c' [HR' Eq]]]].
+  destruct (refines_schedule _ _ ops s e _ Hs HR Hh) as [V [e' [c' [HR' Eq]]]].
   split; [exact V|]. exists e'. destruct (R_Consistent _ _ _ _ _ HR') as [C' Ec]. split; [exact C'|].
   unfold p. rewrite Eq. rewrite Ec. reflexivity.
 Qed.
 
 (** "polynomial positive below MaxPeriod" gives the pointwise hypothesis of [hist_ok] at every position *)
-Lemma poly_ok_prov_ok zp p c : poly_ok zp p -> 0 < p_epp p -> 0 <= c -> prov_ok zp p c.
+Lemma poly_pos_prov_ok p c : poly_pos p -> 0 < p_epp p -> 0 <= c -> prov_ok p c.
 Proof.
-  intros H HE Hc L. pose proof (Z.div_pos c (p_epp p) Hc HE) as D.
-  unfold poly_ok in H. destruct zp.
-  - apply H. lia.
-  - specialize (H (c / p_epp p) ltac:(lia)). lia.
+  intros H HE Hc L. pose proof (Z.div_pos c (p_epp p) Hc HE) as D. apply H. lia.
 Qed.
 
 (* ---------------------------------------------------------------- deciding positivity of a concrete polynomial *)
@@ -652,3 +648,76 @@ Qed.
 
 Lemma poly_unit_pos p : poly_unit p -> poly_pos p.
 Proof. intros H per Hper. specialize (H per Hper). pose proof PREC_pos. lia. Qed.
+
+(* ---------------------------------------------------------------- the distribution along EVERY history *)
+
+Lemma step_module zp s o : o_module (snd (step zp s o)) = s_module (fst (step zp s o)).
+Proof.
+  destruct o as [day e|auth b|auth ed|amt]; cbn [step].
+  - unfold after_epoch_end. destruct day; cbn [negb]; [|reflexivity].
+    destruct (p_enabled (s_params s)); cbn [negb].
+    + destruct (0 <? provision (s_params s) (peek (s_period s))); cbn [negb]; [|reflexivity].
+      destruct (0 <? truncate_int (provision (s_params s) (peek (s_period s)))); cbn [negb]; [|reflexivity].
+      destruct (allocate (s_params s) (s_module s) _) as [[[[a b] c] d] f]. reflexivity.
+    + destruct (p_started (s_params s)); reflexivity.
+  - destruct auth; reflexivity.
+  - destruct (auth && valid (merge ed (s_params s))); reflexivity.
+  - reflexivity.
+Qed.
+
+Lemma step_params zp s o : s_params (fst (step zp s o)) = next_params (s_params s) o.
+Proof.
+  destruct o as [day e|auth b|auth ed|amt]; cbn [step next_params].
+  - unfold after_epoch_end. destruct day; cbn [negb]; [|reflexivity].
+    destruct (p_enabled (s_params s)); cbn [negb].
+    + destruct (0 <? provision (s_params s) (peek (s_period s))); cbn [negb]; [|reflexivity].
+      destruct (0 <? truncate_int (provision (s_params s) (peek (s_period s)))); cbn [negb]; [|reflexivity].
+      destruct (allocate (s_params s) (s_module s) _) as [[[[a b] c] d] f]. reflexivity.
+    + destruct (p_started (s_params s)); reflexivity.
+  - destruct auth; reflexivity.
+  - destruct (auth && valid (merge ed (s_params s))); reflexivity.
+  - reflexivity.
+Qed.
+
+Definition fund_nonneg (o : op) : Prop := match o with Fund a => 0 <= a | _ => True end.
+
+Lemma allocate_module_nonneg p m0 amt :
+  0 <= m0 -> 0 <= amt -> let '(_, _, _, m, _) := allocate p m0 amt in 0 <= m.
+Proof.
+  intros Hm Ha. unfold allocate.
+  destruct (m0 + amt <? share amt (p_staking p)) eqn:A; [lia|]. apply Z.ltb_ge in A.
+  destruct (m0 + amt - share amt (p_staking p) <? share amt (p_community p)) eqn:B; lia.
+Qed.
+
+Lemma step_module_nonneg zp s o : 0 <= s_module s -> fund_nonneg o -> 0 <= s_module (fst (step zp s o)).
+Proof.
+  intros Hm Hf. destruct o as [day e|auth b|auth ed|amt]; cbn [step].
+  - unfold after_epoch_end. destruct day; cbn [negb]; [|exact Hm].
+    destruct (p_enabled (s_params s)); cbn [negb].
+    + destruct (0 <? provision (s_params s) (peek (s_period s))); cbn [negb]; [|exact Hm].
+      destruct (0 <? truncate_int (provision (s_params s) (peek (s_period s)))) eqn:Pa; cbn [negb]; [|exact Hm].
+      apply Z.ltb_lt in Pa.
+      pose proof (allocate_module_nonneg (s_params s) (s_module s) _ Hm (Z.lt_le_incl _ _ Pa)) as X.
+      destruct (allocate (s_params s) (s_module s) _) as [[[[a b] c] d] f]. exact X.
+    + destruct (p_started (s_params s)); exact Hm.
+  - destruct auth; exact Hm.
+  - destruct (auth && valid (merge ed (s_params s))); exact Hm.
+  - cbn in *. lia.
+Qed.
+
+(** EVERY history from EVERY state (consistent or not, any parameters): at each day-epoch end with valid
+    proportions everything minted is distributed and the module account is swept *)
+Theorem distributed_along_every_history zp : forall ops s,
+  0 <= s_module s -> Forall fund_nonneg ops ->
+  P_dist (s_params s) (s_module s) (combine ops (snd (run zp s ops))).
+Proof.
+  induction ops as [|o r IH]; intros s Hm Hf; [exact I|].
+  inversion Hf as [|? ? Hf1 Hf2]; subst.
+  rewrite run_cons. cbn [snd combine P_dist].
+  pose proof (step_module_nonneg zp s o Hm Hf1) as Hm'.
+  pose proof (IH (fst (step zp s o)) Hm' Hf2) as Hr.
+  rewrite step_params, <- step_module in Hr.
+  destruct o as [[|] e|auth b|auth ed|amt]; try exact Hr.
+  split; [|exact Hr].
+  intro D. apply (all_distributed zp s e); [apply dist_okb_sound; exact D|exact Hm].
+Qed.
